@@ -125,6 +125,15 @@ class C16:
             for (m, ab) in items:
                 toks += [m] + ab
             cases.append(Case("dialog", "g%d" % i, toks, {"kind": "alphabet-group", "messages": len(items)}))
+        # the tracked finding K3 (theorem C16_K3_refuted): outside the separator hypothesis a URI change can
+        # leave the identifier unchanged; must be reported as KNOWN-FINDING, never as a new violation
+        k3a = ((b"t", b"urn:x:1-t-urn:x:2", False), (b"t", b"urn:x:1-t-urn:x:2-t-urn:x:1", False))
+        k3b = ((b"t", b"urn:x:2-t-urn:x:1", False), (b"t", b"urn:x:1-t-urn:x:2-t-urn:x:1", False))
+        items = [(render_msg(rng, b"c", x, y, False, False, False), abstract_toks(True, b"c", x, y, False)) for (x, y) in (k3a, k3b)]
+        toks = [len(items)]
+        for (mm, ab) in items:
+            toks += [mm] + ab
+        cases.append(Case("dialog", "k3", toks, {"kind": "known-finding-K3", "messages": 2}))
         # random long realistic identifiers
         m = 200 if tier == "quick" else 5000
         from props import c14
